@@ -55,6 +55,13 @@ def run(ctx) -> None:
     from . import c08
 
     ctx.reuse("C14.execute-guards", c08.trough_predicate)
+    # ... on either device, with the device's own defaults (auto_split on): both classes are configured by the base constructor
+    from . import c16
+
+    ctx.reuse("C14.execute-steps", c16.override_set)
+    # a trough that holds exactly v_stock / v_diluent above its minimum is sufficient: the limit guards are non-strict
+    for kind in ("add", "remove"):
+        ctx.reuse("C14.execute-steps", c02.guard, kind)
 
 
 def _init(ctx, rule):
@@ -243,12 +250,17 @@ def instructions(ctx) -> None:
                     hi = it.args[-1]
                     lo = it.args[0] if len(it.args) > 1 else ast.Constant(value=0)
                     ok_src = isinstance(lo, ast.Constant) and lo.value == 0 and call_fname(hi) == "len" and hi.args and (is_name(strip_norm(hi.args[0]), instr_name) or (is_sym(hi.args[0], "mut") and hi.args[0].args[0].value in (instr_name, targets_name)))
+            if is_sym(src, "idx") and len(src.args) >= 2:
+                # for src_c, entry in enumerate(instructions): the index of the instructions planned so far
+                seq_ = src.args[1]
+                ok_src = (is_name(strip_norm(seq_), instr_name) or (is_sym(seq_, "mut") and seq_.args[0].value in (instr_name, targets_name))) and not any(
+                    isinstance(x, ast.Call) and call_fname(x) == "enumerate" and len(x.args) + len(x.keywords) > 1 for x in [fv.cfg.nodes[int(src.args[0].value.split("@")[1])].ast.iter] if isinstance(src.args[0], ast.Constant) and str(src.args[0].value).startswith("loop@"))
             ctx.rep.check(ok_src, "C14.earlier-source", c + "/source-range", "the source column ranges over the columns planned so far",
                           f"the source column `{show(src)[:60]}` does not range over range(0, len(instructions)): a column could be prepared from one that is not prepared yet", where=w)
             # budget: guard all(v <= remaining[src]) and update remaining[src] = remaining[src] - v
             ok_budget = False
             rem_name = None
-            src_loop = src.args[0].value if is_sym(src, "elem") and isinstance(src.args[0], ast.Constant) else None
+            src_loop = src.args[0].value if (is_sym(src, "elem") or is_sym(src, "idx")) and isinstance(src.args[0], ast.Constant) else None
 
             def rem_of(t):
                 """remaining[src]  (or its index-loop form §elem(loop of src, remaining)) -> name of the list"""
